@@ -108,4 +108,76 @@ def simdIdx (n : Nat) : List Nat :=
   (List.range (n >>> 2)).flatMap (fun k => [4 * k, 4 * k + 1, 4 * k + 2, 4 * k + 3]) ++
     List.range' ((n >>> 2) <<< 2) (n - ((n >>> 2) <<< 2))
 
+/-! ### prepared / big layouts (VecZnxBig, VecZnxDft, SvpPPol, CnvPVecL/R, VmpPMat)
+
+All use the trait accessors of znx_base.rs (`at(i,j)`: `assert!(i < cols())`, `assert!(j < size())`, offset
+`n·(j·cols()+i)` scalars; `raw()`: `n·poly_count()` scalars) over a buffer `B::alloc_bytes(B::bytes_of_*(…))`
+= `alloc_aligned` (padded to 64).  Scalar widths `size_of::<B::ScalarBig>()`, `size_of::<B::ScalarPrep>()`:
+FFT64 (ref and AVX) 8 / 8 (`i64`, `f64`), NTT120 (ref and AVX) 16 / 32 (`i128`, `Q120bScalar` = 4 × u64). -/
+
+inductive Be where
+  | fft64
+  | ntt120
+deriving DecidableEq, Repr
+
+def wBig : Be → Nat
+  | .fft64 => 8
+  | .ntt120 => 16
+def wPrep : Be → Nat
+  | .fft64 => 8
+  | .ntt120 => 32
+
+/-- `VecZnxBig::alloc`, `VecZnxDft::alloc`, `CnvPVecL/R::alloc` (`max_size = size`) -/
+def allocPrep (n cols size w : Nat) : Lay := alloc n cols size w
+/-- `SvpPPol::alloc(n, cols)`: `size() = 1` -/
+def allocSvp (n cols w : Nat) : Lay := alloc n cols 1 w
+
+/-- `VmpPMat`: `cols() = cols_in`, `poly_count() = rows·cols_in·size·cols_out` -/
+structure Vmp where
+  n : Nat
+  rows : Nat
+  colsIn : Nat
+  colsOut : Nat
+  size : Nat
+  len : Nat
+  w : Nat
+deriving DecidableEq, Repr
+
+def allocVmp (n rows colsIn colsOut size w : Nat) : Vmp :=
+  ⟨n, rows, colsIn, colsOut, size, pad64 (n * rows * colsIn * colsOut * size * w), w⟩
+
+/-- the trait's `at(i, j)` on a `VmpPMat` -/
+def vmpAtRange (m : Vmp) (i j : Nat) : Outcome (Nat × Nat) :=
+  if ¬ i < m.colsIn then .panic "assert"
+  else if ¬ j < m.size then .panic "assert"
+  else .ok (m.n * (j * m.colsIn + i) * m.w, m.n * (j * m.colsIn + i) * m.w + m.n * m.w)
+
+def vmpRawRange (m : Vmp) : Nat × Nat := (0, m.n * (m.rows * m.colsIn * m.size * m.colsOut) * m.w)
+
+/-- `VecZnxDft::into_big` (`from_data(self.data, n, cols, size)`): same bytes, scalar width of `ScalarBig` -/
+def intoBig (l : Lay) (be : Be) : Lay := ⟨l.n, l.cols, l.size, l.size, l.len, wBig be⟩
+
+/-! ### NTT120 `vec_znx_idft_apply_consume`: in-place 32-byte → 16-byte compaction
+(`compact_all_blocks_scalar`, reference/ntt120/vec_znx_dft.rs:327).  Units: `u64` words of the buffer.
+For block `k < n_blocks = cols·size`: `intt_ref` in place on `[4nk, 4nk+4n)`; then for `c < n`:
+read the four words `[4nk+4c, 4nk+4c+4)`, then write the `i128` at words `[2nk+2c, 2nk+2c+2)`. -/
+
+def compactBlock (n k : Nat) : Nat × Nat := (4 * n * k, 4 * n * k + 4 * n)
+def compactRead (n k c : Nat) : Nat × Nat := (4 * n * k + 4 * c, 4 * n * k + 4 * c + 4)
+def compactWrite (n k c : Nat) : Nat × Nat := (2 * n * k + 2 * c, 2 * n * k + 2 * c + 2)
+
+/-- program order of the (block, coefficient) steps -/
+def stepBefore (k c k' c' : Nat) : Prop := k < k' ∨ (k = k' ∧ c < c')
+
+/-- the whole access trace, for the driver: `(r, a, b)` / `(w, a, b)` events in program order -/
+def compactTrace (n nBlocks : Nat) : List (Bool × Nat × Nat) :=
+  (List.range nBlocks).flatMap (fun k => (List.range n).flatMap (fun c =>
+    [(false, (compactRead n k c).1, (compactRead n k c).2), (true, (compactWrite n k c).1, (compactWrite n k c).2)]))
+
+/-- executable check of the hazard on a trace: no write touches a word that a *later* read needs -/
+def traceClobbers : List (Bool × Nat × Nat) → Bool
+  | [] => false
+  | (true, a, b) :: rest => rest.any (fun e => !e.1 && decide (a < e.2.2) && decide (e.2.1 < b)) || traceClobbers rest
+  | (false, _, _) :: rest => traceClobbers rest
+
 end Layout
